@@ -301,5 +301,31 @@ def r01_7(ctx):
     return r
 
 
+def r01_8(ctx):
+    """RFC 4960 3.3.4: Gap Ack Block start/end are offsets from the Cumulative TSN Ack *of the same SACK*.
+    Adding them to any other base (a clamped / advanced ack point) marks chunks the peer never received as
+    acknowledged; they are then never retransmitted and the receiver waits at the hole for ever."""
+    r = RuleResult("R01.8", "K6/dataflow", "gap ack block offsets are applied to the SACK's own cumulative TSN ack")
+    fn = "transports::sctp::apply_sack_to_sent_queue"
+    b = ctx.body(fn)
+    r.scope.append(fn)
+    n = 0
+    for bi, t, p in b.calls():
+        if not p or not p.endswith("::wrapping_add") or len(t["a"]) != 2:
+            continue
+        base, off = b.term_operand(t["a"][0]), b.term_operand(t["a"][1])
+        if not mir.has(off, lambda x: x == ("arg", "gap_blocks")):
+            continue
+        n += 1
+        if base == ("arg", "cumulative_tsn_ack"):
+            r.ok({"site": b.where(bi), "base": "the cumulative_tsn_ack parameter"})
+        else:
+            r.violate(fn, "gap:base", b.where(bi),
+                      "a gap ack block offset is added to %s, not to the cumulative TSN ack carried by the SACK itself: "
+                      "unreceived chunks can be marked acknowledged" % mir.show(base, 80))
+    r.need("gap block offset additions", n, 2)
+    return r
+
+
 def run(ctx):
-    return [r01_1(ctx), r01_2(ctx), r01_3(ctx), r01_4(ctx), r01_5(ctx), r01_6(ctx), r01_7(ctx)]
+    return [r01_1(ctx), r01_2(ctx), r01_3(ctx), r01_4(ctx), r01_5(ctx), r01_6(ctx), r01_7(ctx), r01_8(ctx)]
